@@ -48,8 +48,9 @@ def integration_and_binning(ctx, lentil, rng):
         # spectra that are linear across every bin: kinks only at bin edges (centres spaced 2, edges at odd numbers)
         nb = rng.randint(2, 5)
         c0 = rng.choice((402, 404))
-        centres = [Fr(c0 + 2 * k) for k in range(nb)]
-        edges = [centres[0] - 1] + [c + 1 for c in centres]
+        d = rng.choice((1, 2, 2, 3))
+        centres = [Fr(c0 + d * k) for k in range(nb)]
+        edges = [centres[0] - Fr(d, 2)] + [c + Fr(d, 2) for c in centres]
         ends = rng.choice(('symmetric', 'inside'))
         # samples exactly at the edges (plus, sometimes, beyond): piecewise linear with kinks at edges only
         w = list(edges)
@@ -57,7 +58,7 @@ def integration_and_binning(ctx, lentil, rng):
             w = [w[0] - 2] + w + [w[-1] + 2]
         v = [Fr(rng.randint(0, 12), 4) for _ in w]
         cases.append({'k': 'bin', 's': sp.spec_json('nm', None, w, v), 'c': [sp.rj(c) for c in centres], 'ends': ends, 'fill': [0, 1],
-                      'linear_in_bins': ends == 'symmetric'})
+                      'linear_in_bins': ends == 'symmetric', 'odd_spacing': d % 2 == 1})
     for i, c in enumerate(cases):
         c['id'] = i
     exp, res = eval_cases('MC_Spectrum', cases, nparts=10, timeout=900)
@@ -85,9 +86,14 @@ def integration_and_binning(ctx, lentil, rng):
             centres = [float(sp.rf(x)) for x in c['c']]
             ebins = np.array([float(sp.rf(x)) for x in e['bins']])
             ctx.case(('bin', str(c['s']['w']), str(centres), c['ends']))
-            for m in ('trapz', 'simps'):
+            # the same centres written as floats and as integers (all centres of this domain are whole nanometres)
+            for m, ctype in (('trapz', 'float'), ('simps', 'float'), ('trapz', 'int'), ('simps', 'int')):
+                centres = [float(sp.rf(x)) for x in c['c']] if ctype == 'float' else [int(sp.rf(x)) for x in c['c']]
                 b = s.bin(centres, interp_method=m, ends=c['ends'], preserve_power=False, waveunit='nm')
                 sig = {'kind': 'bin', 'method': m, 'ends': c['ends']}
+                if ctype == 'int':
+                    sig['centres'] = 'integer-typed'
+                    sig['edges_between_integers'] = c['odd_spacing']
                 if len(b) != len(centres):
                     ctx.violation(dict(sig, kind='bin-count'), {'n': len(b)}, case={'case': c})
                     continue
